@@ -16,7 +16,7 @@ import json
 import sys
 import threading
 
-from . import catalogue
+from . import catalogue, sitekind
 
 
 class SimBudgetExceeded(BaseException):
@@ -110,7 +110,8 @@ class Kernel:
                     self.faults[k] = desc
             if desc is not None:
                 exc = self.cat.make(desc, marker=k)
-                self.fired.append([k, desc['cls']])
+                sk = sitekind.classify(self.trace_dir, kind) if self.trace_dir else {'kind': 'unknown'}
+                self.fired.append([k, desc['cls'], sk])
                 self.fault_objs[k] = exc
                 self.log[-1].append('FAULT:' + desc['cls'])
                 self.yield_point()
